@@ -121,3 +121,25 @@ def hir_matches_in(body):
     while b.parent is not None:
         b = b.parent
     return [m for m in cr.matches if m["owner"] == b.defi and sp_contains(body.span, m["span"])]
+
+
+def tree(body):
+    """body and all closure bodies nested in it."""
+    out = [body]
+    for ch in body.children:
+        out.extend(tree(ch))
+    return out
+
+
+def tree_calls(body, *pats):
+    out = []
+    for b in tree(body):
+        out.extend(b.calls_to(*pats))
+    return out
+
+
+def closure_bodies(fx, call):
+    out = []
+    for q in call.closures:
+        out.extend(fx.by_q.get(q, []))
+    return out
